@@ -1061,6 +1061,21 @@ func (x *Exec) evalCall(c *ECall, env *SpecEnv) (Val, error) {
 		}
 		hk, hs, _, _ := vc.mapKeys(mt)
 		return Val{T: And(Not(Eq(m.T, intLit64(0))), Select(Select(vc.heapGet(env.st, hk, hs), m.T), k.T)), Typ: types.Typ[types.Bool]}, nil
+	case "allocated":
+		// allocated(x): the reference of x is allocated in the current state (so it differs from
+		// everything allocated later)
+		if err := argN(1); err != nil {
+			return Val{}, err
+		}
+		v, err := x.evalSpec(c.Args[0], env)
+		if err != nil {
+			return Val{}, err
+		}
+		ref := v.T
+		if v.T.Sort == "Slice" {
+			ref = app(SInt, "s-ref", v.T)
+		}
+		return Val{T: vc.isAlloc(env.st, ref), Typ: types.Typ[types.Bool]}, nil
 	case "fresh":
 		// fresh(x): reference of x was not allocated at entry
 		if err := argN(1); err != nil {
@@ -1508,6 +1523,16 @@ func (vc *VC) declBseq() {
 		"(assert (forall ((a %s) (o %s) (n %s)) (! (=> %s (= (bseq.len (bseq a o n)) n)) :pattern ((bseq a o n)))))\n"+
 		"(assert (forall ((a %s) (o %s)) (! (= (bseq a o %s) bseq.empty) :pattern ((bseq a o %s)))))\n(assert (= (bseq.len bseq.empty) %s))",
 		as, idx, idx, idx, as, idx, idx, ge, as, idx, z, z, z))
+	if vc.bseqExt {
+		// opt bseq-ext: extensionality of the abstraction (two ranges with equal bytes are the
+		// same byte string); opt-in because the pairwise pattern is costly
+		lo, lt, sa, sb := "(<= "+z+" i)", "(< i n)", "(select a (+ o i))", "(select b (+ p i))"
+		if vc.ar.Mode == ModeBV {
+			lo, lt, sa, sb = "(bvsle "+z+" i)", "(bvslt i n)", "(select a (bvadd o i))", "(select b (bvadd p i))"
+		}
+		vc.decl("fun:bseq-ext", fmt.Sprintf("(assert (forall ((a %s) (o %s) (b %s) (p %s) (n %s)) (! (=> (forall ((i %s)) (=> (and %s %s) (= %s %s))) (= (bseq a o n) (bseq b p n))) :pattern ((bseq a o n) (bseq b p n)))))",
+			as, idx, as, idx, idx, idx, lo, lt, sa, sb))
+	}
 }
 
 // bytesEqual: bytes.Equal(a, b) as equality of the abstract byte strings (length included).
